@@ -299,6 +299,75 @@ def extra_numeric(ctx):
         o3 = xitorch.integrate.mcquad(lambda x: 2.0 * f1(x) - 0.5 * f2(x), lp, x0, pparams=(mu,), method=sampler, **o)
         if not torch.allclose(o3, 2.0 * o1 - 0.5 * o2, atol=1e-10):
             ctx.violation("mc/%s/linearity" % sampler, "mcquad is not linear in the integrand with sampler %s" % sampler, {"sampler": sampler})
+    # integrand and density are methods of ONE object and share a tensor (a model with its own sampling density): the same values and
+    # first / second order gradients as the function form with explicit parameters
+    def shared_f(x, a, c):
+        return torch.stack([a * x.sum() + c ** 2, torch.sin(c * x.sum()) * a])
+
+    def shared_lp(x, mu, c):
+        return (-0.5 * (x - mu) ** 2 * c ** 2).sum()
+
+    class SharedE(EditableModule):
+        def __init__(self, a, mu, c):
+            self.a, self.mu, self.c = a, mu, c
+
+        def f(self, x):
+            return shared_f(x, self.a, self.c)
+
+        def logp(self, x):
+            return shared_lp(x, self.mu, self.c)
+
+        def getparamnames(self, methodname, prefix=""):
+            return [prefix + "a", prefix + "c"] if methodname == "f" else [prefix + "mu", prefix + "c"]
+
+    class SharedN(torch.nn.Module):
+        def __init__(self, a, mu, c):
+            super().__init__()
+            self.a, self.mu, self.c = torch.nn.Parameter(a), torch.nn.Parameter(mu), torch.nn.Parameter(c)
+
+        def f(self, x):
+            return shared_f(x, self.a, self.c)
+
+        def logp(self, x):
+            return shared_lp(x, self.mu, self.c)
+
+    hstep = lambda x, *p: x * 0.5 + 0.4
+    wv = torch.tensor([0.7, -1.3], dtype=DT)
+    for sampler, o in (("mhcustom", dict(nsamples=5, nburnout=2, custom_step=hstep)), ("_dummy1d", dict(nsamples=12, lb=-2.0, ub=2.0))):
+        vals = [torch.tensor(0.8, dtype=DT), torch.tensor([0.3], dtype=DT), torch.tensor(0.6, dtype=DT)]
+        lv = [v.clone().requires_grad_() for v in vals]
+        oref = xitorch.integrate.mcquad(shared_f, shared_lp, x0, fparams=(lv[0], lv[2]), pparams=(lv[1], lv[2]), method=sampler, **o)
+        gref = torch.autograd.grad((oref * wv).sum(), lv, create_graph=True)
+        href = torch.autograd.grad(sum((g_ * g_).sum() for g_ in gref), lv)
+        for kind in ("EditableModule", "nn.Module"):
+            n += 1
+            ctx.case(key=("shared-object", sampler, kind))
+            try:
+                if kind == "EditableModule":
+                    l2 = [v.clone().requires_grad_() for v in vals]
+                    obj = SharedE(*l2)
+                else:
+                    obj = SharedN(*[v.clone() for v in vals])
+                    l2 = [obj.a, obj.mu, obj.c]
+                out = xitorch.integrate.mcquad(obj.f, obj.logp, x0, method=sampler, **o)
+                g = torch.autograd.grad((out * wv).sum(), l2, create_graph=True)
+                h = torch.autograd.grad(sum((g_ * g_).sum() for g_ in g), l2)
+                why = None
+                if not torch.allclose(out, oref, atol=1e-10):
+                    why = "value differs from the function form"
+                for nm_, a_, b_ in zip(("a (integrand only)", "mu (density only)", "c (shared)"), g, gref):
+                    if why is None and not torch.allclose(a_, b_, atol=1e-9, rtol=1e-8):
+                        why = "first-order gradient w.r.t. %s is %s, the function form gives %s" % (nm_, a_.tolist(), b_.tolist())
+                for nm_, a_, b_ in zip(("a (integrand only)", "mu (density only)", "c (shared)"), h, href):
+                    if why is None and not torch.allclose(a_, b_, atol=1e-8, rtol=1e-7):
+                        why = "second-order gradient w.r.t. %s is %s, the function form gives %s" % (nm_, a_.tolist(), b_.tolist())
+                if why is None and any(x_ is not y_ for x_, y_ in zip((obj.a, obj.mu, obj.c), l2)):
+                    why = "the object holds other tensors afterwards"
+            except Exception as e:
+                why = "raised %s: %s" % (type(e).__name__, str(e)[:160])
+            if why:
+                ctx.violation("mc/%s/shared-object" % sampler, "integrand and density as two methods of one %s sharing a tensor (sampler %s): %s" % (kind, sampler, why),
+                              {"sampler": sampler, "kind": kind})
     # mh: E[x] and E[x^2] of N(mu, 1) within 6 sigma (effective sample size bounded below by nsamples/50 for step 1.0)
     for seed in range(ctx.seed, ctx.seed + (12 if ctx.tier == "thorough" else 3)):
         n += 1
@@ -407,6 +476,8 @@ def run(ctx):
     ctx.replayed = gradpattern.replay(ctx, ["mcquad"], "mc")
     from vlib import objstate
     ctx.replayed += objstate.replay(ctx, ["mcquad"], "mc")
+    from vlib import bwdreuse
+    ctx.replayed += bwdreuse.replay(ctx, ["mcquad"], "mc", sample=(120 if ctx.tier == "thorough" else 20))
     ctx.samples.append(traces[7])
     ctx.notes.update(executions=len(traces), extra_numeric_cases=nx)
     ctx.assumptions += [
